@@ -36,6 +36,10 @@ type C08Case struct {
 	Sources  []C08Source `json:"sources"`
 	Actions  []C08Action `json:"actions"`
 	Parallel [][]int     `json:"parallel"` // per goroutine: indexes of sources to compile on the shared config
+	// ExtraOpts: keys written directly into the caller's CompileOptions map that no Option function
+	// ever writes: 1 "optimize":true, 2 "optimize":false, 3 an unknown key, 4 both (the engine
+	// ignores them; they are the caller's all the same)
+	ExtraOpts int `json:"extra_opts,omitempty"`
 }
 
 var malformedDirectives = []string{";;;; bogus\n", ";;;; reordering:maybe\n", ";;;; a:b:c\n", ";;;; debug:true\n", ";;;;\n", ";;;; optimize\n"}
@@ -89,6 +93,7 @@ func genC08(t *rapid.T) C08Case {
 		u.RegMode = RegGetOrReg // keep key assignment a function of the case
 	}
 	c := C08Case{U: *u, Mask: rapid.IntRange(0, 15).Draw(t, "mask"), Sparse: rapid.Bool().Draw(t, "sparse"), Costs: genCosts(t, all, finiteCosts)}
+	c.ExtraOpts = pickW(t, "extraopts", 6, 1, 1, 1, 1)
 	for _, tr := range trees {
 		src := C08Source{Tree: tr}
 		switch pickW(t, "directive", 3, 5, 1) {
@@ -257,6 +262,20 @@ func checkC08(c C08Case, r *Rec) *Violation {
 		withCap := make([]string, len(cc.StatelessOperators), len(cc.StatelessOperators)+5)
 		copy(withCap, cc.StatelessOperators)
 		cc.StatelessOperators = withCap
+	}
+	switch c.ExtraOpts {
+	case 1:
+		cc.CompileOptions[eval.Optimize] = true
+	case 2:
+		cc.CompileOptions[eval.Optimize] = false
+	case 3:
+		cc.CompileOptions["zz_unknown_option"] = true
+	case 4:
+		cc.CompileOptions[eval.Optimize] = c.Mask%2 == 0
+		cc.CompileOptions["zz_unknown_option"] = false
+	}
+	if c.ExtraOpts != 0 {
+		r.Class("caller-written-option-keys")
 	}
 	srcs := make([]string, len(c.Sources))
 	for i, s := range c.Sources {
@@ -465,7 +484,7 @@ func checkC08(c C08Case, r *Rec) *Violation {
 
 var propC08 = Prop[C08Case]{
 	ID:       "C08",
-	Rule:     "histories over one shared Config (constants, variables, custom operators, cost map, option subset written fully or sparsely, stateless list) and 2..5 sources over it, each with no directive, a valid ;;;; directive for a drawn subset (4 spellings) or a malformed one: 2..12 actions (Compile on the shared config, CopyConfig / NewConfig(ExtendConf) followed by a mutation of one of the six containers of the copy, incl. append to and in-place assignment of the stateless slice, Compile on a copy, mutation of a config after a copy was taken), then every source recompiled in reverse order, then 2..8 goroutines compiling 2..8 sources each on the shared config under the race detector. Oracles: a deep snapshot of the caller's Config (five maps, slice contents, operator identities) is identical after every Compile; the same source always gives the same compile verdict, Dump, DumpTable and outcomes on 3 bindings; copies equal their source, and mutations never cross between a config and its copies; no race report. Non-trivial = the history contains a directive-bearing compile followed by a directive-free compile of a source whose optimized form differs from its unoptimized form (a leaked directive would be visible); distinct by sources + actions + options",
+	Rule:     "histories over one shared Config (constants, variables, custom operators, cost map, option subset written fully or sparsely, optionally with caller-written keys no Option function writes - the `optimize` master key, an unknown key -, stateless list) and 2..5 sources over it, each with no directive, a valid ;;;; directive for a drawn subset (4 spellings) or a malformed one: 2..12 actions (Compile on the shared config, CopyConfig / NewConfig(ExtendConf) followed by a mutation of one of the six containers of the copy, incl. append to and in-place assignment of the stateless slice, Compile on a copy, mutation of a config after a copy was taken), then every source recompiled in reverse order, then 2..8 goroutines compiling 2..8 sources each on the shared config under the race detector. Oracles: a deep snapshot of the caller's Config (five maps, slice contents, operator identities) is identical after every Compile; the same source always gives the same compile verdict, Dump, DumpTable and outcomes on 3 bindings; copies equal their source, and mutations never cross between a config and its copies; no race report. Non-trivial = the history contains a directive-bearing compile followed by a directive-free compile of a source whose optimized form differs from its unoptimized form (a leaked directive would be visible); distinct by sources + actions + options",
 	Gen:      genC08,
 	Check:    checkC08,
 	PreWrite: true,
